@@ -409,6 +409,34 @@ feature smcp {
 }
 
 /// A named GPOS lookup referenced by a feature gets its name and source location.
+// Every glyph of the class target of an inline multiple substitution goes in
+// the anonymous lookup the rule refers to: `a` cannot join the first rule's
+// lookup, so neither does `d`.
+#[test]
+fn inline_multiple_sub_with_class_target_uses_one_lookup() {
+    use write_fonts::tables::gsub::SubstitutionLookup;
+
+    let compilation = compile_fea(
+        "\
+feature test {
+    sub a' x by b c;
+    sub [a d]' y by e f;
+} test;
+",
+        "inline_multiple_sub_class_target",
+    );
+    let gsub = compilation.gsub.as_ref().unwrap();
+    assert_eq!(gsub.lookup_list.lookups.len(), 3);
+    let SubstitutionLookup::Multiple(first) = &*gsub.lookup_list.lookups[1] else {
+        panic!("expected a multiple substitution lookup");
+    };
+    let SubstitutionLookup::Multiple(second) = &*gsub.lookup_list.lookups[2] else {
+        panic!("expected a multiple substitution lookup");
+    };
+    assert_eq!(first.subtables[0].sequences.len(), 1);
+    assert_eq!(second.subtables[0].sequences.len(), 2);
+}
+
 #[test]
 fn debg_named_gpos_lookup() {
     let json = compile_debg(
